@@ -480,6 +480,8 @@ func (p *projSpec) renderTarget(t *targetSpec) string {
 			args = append(args, fmt.Sprintf("late_%s()", t.Name))
 		case "structfn":
 			args = append(args, fmt.Sprintf("RULES_%s.render()", t.Name))
+		case "fnkeys":
+			args = append(args, fmt.Sprintf("(len(FK_%s), len(FS_%s), fk_%s_a())", t.Name, t.Name, t.Name))
 		case "kwonly":
 			args = append(args, fmt.Sprintf("kw_%s(1, b = 2)", t.Name))
 		case "cacheonce":
@@ -515,6 +517,13 @@ func (p *projSpec) renderTarget(t *targetSpec) string {
 		if r := &t.Refs[i]; r.Kind == "twins" {
 			fmt.Fprintf(&sb, "def mk_%s(v, d = 0):\n    def inner(x = d):\n        return (v, x)\n    return inner\n\n", t.Name)
 			fmt.Fprintf(&sb, "TW_%s_a = mk_%s(%s)\nTW_%s_b = mk_%s(%s, d = %s)\n\n", t.Name, t.Name, r.Val.render(), t.Name, t.Name, r.Val.render(), r.Val2.render())
+		}
+	}
+	for i := range t.Refs {
+		if r := &t.Refs[i]; r.Kind == "fnkeys" {
+			n := t.Name
+			fmt.Fprintf(&sb, "def fk_%s_a():\n    return %s\n\ndef fk_%s_b():\n    return 2\n\n", n, r.Val.render(), n)
+			fmt.Fprintf(&sb, "FK_%s = {fk_%s_a: 1, (fk_%s_b, 3): 2, struct(f = fk_%s_b): 3}\nFS_%s = set([fk_%s_a, fk_%s_b])\n\n", n, n, n, n, n, n, n)
 		}
 	}
 	for i := range t.Refs {
